@@ -11,26 +11,38 @@ from . import gauss
 
 
 class Stages(AbsInt):
-    """Which sanitisation stages a value has passed, in order: tuple of stage names."""
+    """Which sanitisation stages a value has passed, in order.  A value is a frozenset of alternatives, each a tuple of
+    stage names; evaluation of a function is path by path, and a path taken under the condition-number guard carries
+    the marker 'G+' (guard true) or 'G-' (guard false)."""
+    MAX_DEPTH = 3
 
     def const(self, node, fr):
         return TOP
 
     def param(self, name, fr):
-        return ()
+        return fr.params.get(name, frozenset({()}))
+
+    def join(self, a, b):
+        if isinstance(a, frozenset) and isinstance(b, frozenset):
+            return a | b
+        return super().join(a, b)
 
     def join_distinct(self, a, b):
         return TOP
 
+    @staticmethod
+    def each(v, f):
+        return frozenset(f(alt) for alt in v) if isinstance(v, frozenset) else TOP
+
     def method_call(self, meth, node, recv, fr):
-        if meth == 'corr' and isinstance(recv, tuple):
-            return recv + ('corr',)
-        if meth in ('to_numpy', 'copy', 'astype') and isinstance(recv, tuple):
+        if meth == 'corr' and isinstance(recv, frozenset):
+            return self.each(recv, lambda a: a + ('corr',))
+        if meth in ('to_numpy', 'copy', 'astype') and isinstance(recv, frozenset):
             return recv
         return None
 
     def attribute(self, node, base, fr):
-        return base if node.attr == 'values' and isinstance(base, tuple) else TOP
+        return base if node.attr == 'values' and isinstance(base, frozenset) else TOP
 
     def global_name(self, dotted, node, fr):
         return ('const', dotted)
@@ -40,11 +52,7 @@ class Stages(AbsInt):
             v = self.value(node.args[0], fr)
             nan = kwarg(node, 'nan', 2)
             zero = nan is None or const_value(nan) in (0, 0.0)
-            if isinstance(v, tuple):
-                return v + (('nan0',) if zero else ('nan-nonzero',))
-            return TOP
-        if name == 'numpy.where' and len(node.args) == 3:
-            return TOP
+            return self.each(v, lambda a: a + (('nan0',) if zero else ('nan-nonzero',)))
         if name == 'pandas.DataFrame':
             d = kwarg(node, 'data', 0)
             return self.value(d, fr) if d is not None else TOP
@@ -56,7 +64,7 @@ class Stages(AbsInt):
 
     def project_call_override(self, g, node, fr):
         if g.name == '_transform_to_normal':
-            return ('scores',)
+            return frozenset({('scores',)})
         return None
 
     def binop(self, node, left, right, fr):
@@ -64,13 +72,42 @@ class Stages(AbsInt):
             for a, b in ((left, right), (right, left)):
                 if a == ('identity',) and isinstance(b, tuple) and b and b[0] == 'const':
                     return ('ridge-term', b[1])
-                if a == ('identity',) and b is TOP:
+                if a == ('identity',) and not isinstance(b, frozenset):
                     return ('ridge-term', '?')
         if isinstance(node.op, ast.Add):
             for a, b in ((left, right), (right, left)):
-                if isinstance(b, tuple) and b and b[0] == 'ridge-term' and isinstance(a, tuple):
-                    return a + ('ridge:' + str(b[1]),)
+                if isinstance(b, tuple) and b and b[0] == 'ridge-term' and isinstance(a, frozenset):
+                    return self.each(a, lambda alt: alt + ('ridge:' + str(b[1]),))
         return TOP
+
+    def returns(self, fr):
+        out = BOT
+        fn = fr.fn
+        for path in enum_paths(fn.body()):
+            if not isinstance(path.end, ast.Return) or path.end.value is None:
+                continue
+            sub = Frame(fn, dict(fr.params), fr.concrete, fr.depth, path=path)
+            val = self.value(path.end.value, sub)
+            marks = ()
+            for t, pol in path.conds:
+                if isinstance(t, ast.expr) and _mentions_cond(self.prog, fn, _res(fn, t)):
+                    good = _is_cond_guard(self.prog, fn, _res(fn, t))
+                    marks += (('G+' if pol else 'G-') if good else ('Gbad+' if pol else 'Gbad-'),)
+            if isinstance(val, frozenset) and marks:
+                val = self.each(val, lambda a: a + marks)
+            out = self.join(out, val)
+        return out
+
+
+def _res(fn, e):
+    from ..idioms import resolve
+    if isinstance(e, ast.Compare):
+        import copy
+        e2 = copy.copy(e)
+        e2.left = resolve(fn.node, e.left)
+        e2.comparators = [resolve(fn.node, c) for c in e.comparators]
+        return e2
+    return resolve(fn.node, e)
 
 
 def run(ctx, rep):
@@ -88,41 +125,35 @@ def run(ctx, rep):
     rep.rule('D4.labels', 'the matrix is labelled with the training columns in the order of its rows/columns')
     rep.rule('D5.order', 'fit assigns columns and univariates before computing the correlation of the same table')
     st = Stages(ctx)
-    ridge_paths = plain_paths = 0
-    for path in enum_paths(fn.body()):
-        if not isinstance(path.end, ast.Return) or path.end.value is None:
-            continue
-        fr = Frame(fn, {}, cls, path=path)
-        data = path.end.value
-        v = st.value(data, fr)
-        has_ridge_guard = any(_is_cond_guard(prog, fn, t) and pol for t, pol in path.conds if isinstance(t, ast.expr))
-        if not isinstance(v, tuple):
-            rep.undecided('D1.chain', fn, path.end, f'stages of the returned matrix not derivable on path {path!r}')
-            continue
-        stages = list(v)
-        ok = 'scores' in stages and 'corr' in stages and 'nan0' in stages \
-            and stages.index('scores') < stages.index('corr') < stages.index('nan0')
-        rep.check('D1.chain', fn, path.end, ok, f'stages {stages}',
-                  f'the returned matrix passes {stages}: the NaN-to-zero step (constant columns) or the corr() of the normal scores is missing',
-                  construct=f'return stages ({"ridge" if has_ridge_guard else "plain"} path)')
-        ridges = [s for s in stages if isinstance(s, str) and s.startswith('ridge:')]
-        if has_ridge_guard:
-            ridge_paths += 1
-            good = len(ridges) == 1 and (ridges[0] == 'ridge:copulas.utils.EPSILON')
-            rep.check('D2.ridge', fn, path.end, good, 'ill-conditioned path adds EPSILON * identity',
-                      f'the ill-conditioned path does not add EPSILON * identity (stages {stages})',
-                      construct='ridge on the ill-conditioned path')
+    val = st.returns(Frame(fn, {}, cls))
+    rets = [n for n in walk_no_nested(fn.node) if isinstance(n, ast.Return) and n.value is not None]
+    anchor = rets[-1] if rets else fn.node.name
+    if not isinstance(val, frozenset) or not val:
+        rep.undecided('D1.chain', fn, anchor, 'stages of the returned matrix not derivable', construct='return stages')
+    else:
+        alts = sorted(val)
+        for alt in alts:
+            stages = [x for x in alt if not x.startswith('G')]
+            ok = 'scores' in stages and 'corr' in stages and 'nan0' in stages \
+                and stages.index('scores') < stages.index('corr') < stages.index('nan0')
+            label = 'ridge' if any(x.startswith('ridge:') for x in alt) else 'plain'
+            rep.check('D1.chain', fn, anchor, ok, f'stages {stages}',
+                      f'the returned matrix passes {stages}: the NaN-to-zero step (constant columns) or the corr() of the normal scores is missing',
+                      construct=f'return stages ({label} path)')
+        ridged = [a for a in alts if any(x.startswith('ridge:') for x in a)]
+        plain = [a for a in alts if a not in ridged]
+        guards = {x for a in alts for x in a if x.startswith('G')}
+        if not guards:
+            rep.bad('D2.ridge', fn, fn.node.name, 'no path guarded by a condition-number test: a singular correlation is never regularised',
+                    construct='condition-number guard')
+        elif any(g.startswith('Gbad') for g in guards):
+            rep.bad('D2.ridge', fn, fn.node.name, 'the condition-number test has the wrong direction or threshold', construct='cond guard')
         else:
-            plain_paths += 1
-    rep.check('D2.ridge', fn, fn.node.name, ridge_paths >= 1,
-              'a path guarded by np.linalg.cond(c) > 1/eps exists', 'no path guarded by the condition-number test: a singular '
-              'correlation is never regularised', construct='condition-number guard')
-    # guard polarity and threshold
-    for n in walk_no_nested(fn.node):
-        if isinstance(n, ast.If) and _mentions_cond(prog, fn, n.test):
-            rep.check('D2.ridge', fn, n.test, _is_cond_guard(prog, fn, n.test),
-                      'ridge taken when cond(c) is LARGE (> 1/machine epsilon)',
-                      'the condition-number test has the wrong direction or threshold', construct='cond guard')
+            rep.ok('D2.ridge', fn, fn.node.name, 'ridge decision taken when cond(c) is LARGE (> 1/machine epsilon)', construct='cond guard')
+            good = bool(ridged) and all('G+' in a for a in ridged) and all(x == 'ridge:copulas.utils.EPSILON' for a in ridged for x in a if x.startswith('ridge:')) \
+                and all('G+' not in a for a in plain)
+            rep.check('D2.ridge', fn, anchor, good, 'exactly the ill-conditioned path adds EPSILON * identity',
+                      f'the ill-conditioned path does not add EPSILON * identity (alternatives {alts})', construct='ridge on the ill-conditioned path')
     gauss.report_space(ctx, rep, 'D3.scores', ['_transform_to_normal', '_get_correlation'])
     sk, facts = gauss.space_analysis(ctx)
     tn = gauss.gm_method(ctx, '_transform_to_normal')
@@ -143,9 +174,9 @@ def run(ctx, rep):
     calls = [c for c in walk_no_nested(fit.node) if isinstance(c, ast.Call) and call_name(c) == '_get_correlation']
     for c in calls:
         cn = cfg.node_containing(c)
+        from ..idioms import attr_stores
         for attr in ('columns', 'univariates'):
-            stores = [n for n in walk_no_nested(fit.node) if isinstance(n, ast.Assign) and any(
-                is_self_attr(t, fit.self_name, attr) for t in n.targets)]
+            stores = [st_ for st_, _v in attr_stores(fit, attr)]
             good = any(cfg.node_of(s) is not None and cfg.node_of(s).id in dom.get(cn.id, ()) for s in stores)
             rep.check('D5.order', fit, c, good, f'self.{attr} is assigned before the correlation is computed',
                       f'_get_correlation reads self.{attr} (through _transform_to_normal) before fit assigns it: it uses the '
